@@ -258,6 +258,27 @@ func (w *World) refClosure(fn *ssa.Function, into map[*ssa.Function]bool) {
 			if mc, ok := in.(*ssa.MakeClosure); ok {
 				w.refClosure(mc.Fn.(*ssa.Function), into)
 			}
+			// a closure kept in a local variable / struct field and called through it
+			if c, ok := in.(ssa.CallInstruction); ok && w.fx != nil && !c.Common().IsInvoke() && calleeOf(c) == nil {
+				if _, isB := c.Common().Value.(*ssa.Builtin); !isB {
+					if tg, ok := w.fx.funcTargets(c.Common().Value); ok {
+						for _, t := range tg {
+							// only closures of the same lexical family (created by an enclosing function of fn, or by a
+							// function already in the scope): a parameter such as a getter closure resolves to the
+							// closures of every caller, and those belong to the callers' scopes, not to this one
+							fam := false
+							for a := fn; a != nil; a = a.Parent() {
+								if t.Parent() == a {
+									fam = true
+								}
+							}
+							if fam || t.Parent() != nil && into[t.Parent()] {
+								w.refClosure(t, into)
+							}
+						}
+					}
+				}
+			}
 		}
 	}
 }
